@@ -55,7 +55,7 @@ def check_short_reads(ctx, rule):
             raise AnalysisError('primitive %s performs no read' % pr.qualname)
         okall = True
         for c in raws:
-            ln = requested_length(c)
+            ln = requested_length(c, pr)
             ok, why = IO.length_checked(pr, c, ln) if ln else (False, 'requested length not identifiable')
             okall = okall and ok
         self_checking[pr.qualname] = (okall, why)
@@ -82,7 +82,7 @@ def check_short_reads(ctx, rule):
         for c in IO.raw_io_calls(f):
             if c.func.attr not in ('read', 'readall'):
                 continue
-            ln = requested_length(c)
+            ln = requested_length(c, f)
             ok, why = IO.length_checked(f, c, ln) if ln else (False, 'requested length not identifiable')
             if ok:
                 ctx.ok(rule, f, c, why)
@@ -92,11 +92,13 @@ def check_short_reads(ctx, rule):
     ctx.floor(rule, 7, 'range-read call sites')
 
 
-def requested_length(c):
+def requested_length(c, f=None):
     if c.func.attr == 'read' and c.args:
         return U(c.args[0])
     if c.func.attr == 'readall':
         inner = c.func.value
+        if isinstance(inner, ast.Name) and f is not None:
+            inner = IO.single_def(f, inner.id)
         if isinstance(inner, ast.Call):
             for k in inner.keywords:
                 if k.arg == 'length':
